@@ -82,6 +82,30 @@ CLAIMED = {
         "including the float64 reference used only for guards, kernel values rounded to 2^-24 and eps 17*2^-24, TF argmax/inv semantics, float32 covered by tolerances and "
         "the cond <= 60 guard.",
    design="5 (C18)", technique="Coq invariants over the greedy loop + generic first-arg-max batching lemma + differential correspondence with margin/conditioning guards"),
+ "C01": dict(
+   text="Machine-checked proof (Coq 8.16.1, closed) that executable transcriptions of Saliency/GradientInput/GradientStatistic.explain (literal batching and while loop, "
+        "online statistics, channel harmonisation) equal the per-sample reference definitions for every gradient function, batch size, nb_samples, N and shape, and "
+        "evaluate exactly nb_samples noisy copies per input; F-quad gradient proved to be the derivative; tied to /repo on every run by correspondence with recorded noise.",
+   note="Trusted: Coq kernel + vm_compute, the hand-written model, the harness, TF autodiff/float32 (exact or 1e-5 scaled tolerance), the row-wise assumption; the noise "
+        "distribution is not addressed; only the F-quad family is executed.",
+   design="5 (C01)", technique="Coq proof Model=Spec by loop invariant over perturbation chunks + differential correspondence (exact / scaled tolerance) with recorded random draws"),
+ "C08": dict(
+   text="Machine-checked proofs that the executable models of the replicated designs, the five Sobol total-order estimators, the GSA explain loop and the HSIC estimator "
+        "equal their published / documented formulas for all n, d and batch sizes; Jansen is non-negative, exactly zero on inert dimensions and affine-invariant; HSIC "
+        "scores permute with cells and, for the binary kernel, are the quadratic form (2/n)u'Lu hence non-negative under a PSD hypothesis on L. Tied to /repo by "
+        "correspondence on estimator classes, samplers/designs and explainers end to end (recorded outputs, explainer.masks, staged bicubic resize).",
+   note="Trusted: Coq kernel + vm_compute; hand-written model; sqrt, exp, np.percentile, cv2.blur, QMC/LHS draws and the bicubic resize are inputs / tables re-checked in Coq; "
+        "PSD-ness of the RBF Gram matrix is a hypothesis; non-negativity proved for the binary kernel only; convergence to analytic indices is statistical (support only).",
+   design="5 (C08)", technique="Coq proofs over Qc (list/batch induction, ring/field, qc2q+nra, finite-sum algebra for HSIC) + differential correspondence (vm_compute) on recorded designs and outputs"),
+ "C03": dict(
+   text="Batch-invariance corollaries of the machine-checked Model = Spec theorems of the individual methods (every batch size or None), re-stated in one place, plus the "
+        "generic proofs that row-wise evaluation batch by batch equals evaluation at once and that a per-sample method commutes with any selection (permutation, subset, "
+        "duplication) of its inputs; the methods as wholes are tied by running every listed method of /repo with many batch sizes (and selections) under fixed seeds and "
+        "requiring equal results.",
+   note="Trusted: Coq kernel; the per-method models are tied to /repo by the checks of their own properties; this check's correspondence is implementation-vs-implementation "
+        "across batch sizes (tolerance rtol 2e-5); sampling methods run eagerly under a fixed seed. Methods whose per-method model is not finished yet are covered here by the "
+        "differential runs only (see DESIGN.md).",
+   design="5 (C03)", technique="Coq corollaries of per-method Model=Spec theorems + generic list lemmas; differential runs across batch sizes on the real code"),
 }
 PENDING_REASON = "check not built yet in this session (work in progress; planned in DESIGN.md section 5)"
 
